@@ -56,6 +56,15 @@ permitted operation ran in between):
   from the flag (`after[<op>]@<where>/<probe class>|<mode>`);
 * driver 8: a protected value that becomes a member of a new parent
   (`compose/<constructor or mutator family>|...-member-stays-protected`).
+
+Protection requested at creation time (driver 9): constructor keywords
+sealed= / accessor_writable=, the class attributes allow_symbolic_mutation /
+allow_symbolic_assignment, a flag API right after creation, creation inside a
+scope -- over the boundary shapes of every container kind (no members in
+every spelling of the arguments, members from defaults only, one member,
+members that are empty containers, field-less objects / functors) and with
+each of the other constructor keywords
+(`ctor[<shape class>]{<protection mode>}/<probe class>|<mode>`).
 """
 import threading
 import traceback
@@ -2100,10 +2109,399 @@ def drv_composition(tier, seed):
   return rec.result()
 
 
+# --------------------------------------------------------------------------
+# Driver 9: protection requested when the value is created (constructor
+# keywords sealed= / accessor_writable=, class-level defaults
+# allow_symbolic_mutation / allow_symbolic_assignment, a flag API called
+# right after creation) over the boundary shapes of every container kind:
+# no member at all, members that only come from defaults, one member, members
+# that are themselves empty containers -- in every spelling of the constructor
+# arguments and together with each of the other constructor keywords.  The
+# expected protection of every node is taken from the keywords / class
+# attributes / flag APIs written in the tree source, never read back from the
+# value.
+# --------------------------------------------------------------------------
+
+_BND_IN = """def c08_in(scope, make):
+  with scope: return make()
+"""
+PRE['b-plain'] = 'import pyglove as pg\nT = pg.typing\n' + _BND_IN
+PRE['b-obj'] = """import pyglove as pg
+A = pg.typing.Any
+class C08E(pg.Object):
+  allow_symbolic_assignment = True
+class C08D(pg.Object):
+  allow_symbolic_assignment = True
+  x: A(default=1); d: A(default=None); l: A(default=None)
+class C08M(C08D):
+  allow_symbolic_mutation = False
+class C08Q(pg.Object):
+  x: A(default=1)
+class C08R(pg.Object):
+  allow_symbolic_assignment = True
+  x: A(); y: A(default=1)
+@pg.functor()
+def c08f0():
+  return 1
+@pg.functor()
+def c08f1(x=1, d=None, l=None):
+  return x
+""" + _BND_IN
+for _k in ('b-plain', 'b-obj'):
+  exec(compile(PRE[_k], '<c08-preamble>', 'exec'), _NS)  # pylint: disable=exec-used
+
+_BND_TD = 'value_spec=T.Dict([(T.StrKey(), T.Any())])'
+_BND_TDD = ("value_spec=T.Dict([('n', T.Int(default=1)), "
+            "('s', T.Dict([('u', T.Int(default=0))])), (T.StrKey(), T.Any())])")
+_BND_TL = 'value_spec=T.List(T.Any())'
+# (shape class [part of the case id], spelling [key only], preamble,
+#  constructor source with `@` standing for the protection keywords,
+#  primary?, root only?).  The first spelling of a class is its primary one:
+#  it gets every operation under every protection mode; the other spellings
+#  and the other constructor keywords get the probe operations.
+BND_SHAPES = [
+    # pg.Dict
+    ('dict-empty', 'no-args', 'b-plain', 'pg.Dict(@)', True, False),
+    ('dict-empty', 'mapping', 'b-plain', 'pg.Dict({}, @)', False, False),
+    ('dict-empty', 'None', 'b-plain', 'pg.Dict(None, @)', False, False),
+    ('dict-empty', 'pairs', 'b-plain', 'pg.Dict([], @)', False, False),
+    ('dict-empty', 'pg.Dict', 'b-plain', 'pg.Dict(pg.Dict(), @)', False,
+     False),
+    ('dict-empty', '+onchange_callback', 'b-plain',
+     'pg.Dict(onchange_callback=lambda u: None, @)', False, False),
+    ('dict-empty', '+allow_partial', 'b-plain',
+     'pg.Dict(allow_partial=True, @)', False, False),
+    ('dict-empty', '+root_path', 'b-plain',
+     "pg.Dict(root_path=pg.KeyPath('r'), @)", False, True),
+    ('dict-empty', 'partial()', 'b-plain', 'pg.Dict.partial(@)', False,
+     False),
+    ('dict-empty-typed', 'str-key-spec', 'b-plain', f'pg.Dict({_BND_TD}, @)',
+     True, False),
+    ('dict-empty-typed', 'no-field-spec', 'b-plain',
+     'pg.Dict(value_spec=T.Dict(), @)', False, False),
+    ('dict-empty-typed', 'mapping', 'b-plain', f'pg.Dict({{}}, {_BND_TD}, @)',
+     False, False),
+    ('dict-empty-typed', 'partial()-required-field-missing', 'b-plain',
+     "pg.Dict.partial({}, T.Dict([('n', T.Int()), (T.StrKey(), T.Any())]), @)",
+     False, False),
+    ('dict-defaults-only-typed', 'no-args', 'b-plain',
+     f'pg.Dict({_BND_TDD}, @)', True, False),
+    ('dict-1-member', 'kwarg', 'b-plain', 'pg.Dict(a=1, @)', True, False),
+    ('dict-1-member', 'mapping', 'b-plain', "pg.Dict({'a': 1}, @)", False,
+     False),
+    ('dict-1-member', 'typed', 'b-plain', f'pg.Dict(a=1, {_BND_TD}, @)',
+     False, False),
+    ('dict-1-member', '+onchange_callback', 'b-plain',
+     'pg.Dict(a=1, onchange_callback=lambda u: None, @)', False, False),
+    ('dict-2-members', 'kwargs', 'b-plain', 'pg.Dict(a=1, b=2, @)', False,
+     False),
+    ('dict-of-empty-containers', 'pg-values', 'b-plain',
+     'pg.Dict(a=pg.Dict(), b=pg.List(), @)', True, False),
+    ('dict-of-empty-containers', 'plain-values', 'b-plain',
+     'pg.Dict(a={}, b=[], @)', False, False),
+    ('dict-of-empty-containers', 'typed', 'b-plain',
+     f'pg.Dict(a={{}}, b=[], {_BND_TD}, @)', False, False),
+    # pg.List
+    ('list-empty', 'no-args', 'b-plain', 'pg.List(@)', True, False),
+    ('list-empty', 'list', 'b-plain', 'pg.List([], @)', False, False),
+    ('list-empty', 'tuple', 'b-plain', 'pg.List((), @)', False, False),
+    ('list-empty', 'None', 'b-plain', 'pg.List(None, @)', False, False),
+    ('list-empty', 'pg.List', 'b-plain', 'pg.List(pg.List(), @)', False,
+     False),
+    ('list-empty', 'iterator', 'b-plain', 'pg.List(iter([]), @)', False,
+     False),
+    ('list-empty', '+onchange_callback', 'b-plain',
+     'pg.List(onchange_callback=lambda u: None, @)', False, False),
+    ('list-empty', '+allow_partial', 'b-plain',
+     'pg.List(allow_partial=True, @)', False, False),
+    ('list-empty', '+root_path', 'b-plain',
+     "pg.List(root_path=pg.KeyPath('r'), @)", False, True),
+    ('list-empty', 'partial()', 'b-plain', 'pg.List.partial(@)', False, False),
+    ('list-empty-typed', 'list', 'b-plain', f'pg.List([], {_BND_TL}, @)', True,
+     False),
+    ('list-empty-typed', 'no-args', 'b-plain', f'pg.List({_BND_TL}, @)', False,
+     False),
+    ('list-1-member', 'list', 'b-plain', 'pg.List([1], @)', True, False),
+    ('list-1-member', 'typed', 'b-plain', f'pg.List([1], {_BND_TL}, @)', False,
+     False),
+    ('list-2-members', 'list', 'b-plain', 'pg.List([3, 1], @)', False, False),
+    ('list-of-empty-containers', 'pg-values', 'b-plain',
+     'pg.List([pg.Dict(), pg.List()], @)', True, False),
+    ('list-of-empty-containers', 'plain-values', 'b-plain',
+     'pg.List([{}, []], @)', False, False),
+    ('list-of-empty-containers', 'typed', 'b-plain',
+     f'pg.List([{{}}, []], {_BND_TL}, @)', False, False),
+    # pg.Object / functors
+    ('object-no-fields', 'no-args', 'b-obj', 'C08E(@)', True, False),
+    ('object-defaults-only', 'no-args', 'b-obj', 'C08D(@)', True, False),
+    ('object-defaults-only', 'partial()', 'b-obj', 'C08D.partial(@)', False,
+     False),
+    ('object-defaults-only', '+allow_partial', 'b-obj',
+     'C08D(allow_partial=True, @)', False, False),
+    ('object-1-arg', 'kwarg', 'b-obj', 'C08D(x=2, @)', False, False),
+    ('object-1-arg', 'positional', 'b-obj', 'C08D(2, @)', False, False),
+    ('object-of-empty-containers', 'pg-values', 'b-obj',
+     'C08D(d=pg.Dict(), l=pg.List(), @)', True, False),
+    ('object-of-empty-containers', 'plain-values', 'b-obj',
+     'C08D(d={}, l=[], @)', False, False),
+    ('object-class-sealed-by-default', 'no-args', 'b-obj', 'C08M(@)', True,
+     False),
+    ('object-class-sealed-by-default', 'with-empty-containers', 'b-obj',
+     'C08M(d={}, l=[], @)', False, False),
+    ('object-class-accessors-off', 'no-args', 'b-obj', 'C08Q(@)', True, False),
+    ('object-partial-required-field-missing', 'partial()', 'b-obj',
+     'C08R.partial(@)', True, False),
+    ('functor-no-args', 'no-args', 'b-obj', 'c08f0(@)', True, False),
+    ('functor-defaults-only', 'no-args', 'b-obj', 'c08f1(@)', True, False),
+    ('functor-defaults-only', 'partial()', 'b-obj', 'c08f1.partial(@)', False,
+     False),
+    ('functor-of-empty-containers', 'plain-values', 'b-obj',
+     'c08f1(d={}, l=[], @)', False, False),
+]
+
+# (mode label, constructor keywords, statements after construction,
+#  sealed afterwards {True, False, None: class default},
+#  root accessors afterwards {False, None: class default},
+#  container kinds only?, main mode?)
+BND_MODES = [
+    ('default', '', (), None, None, False, True),
+    ('sealed=True', 'sealed=True', (), True, None, False, True),
+    ('seal()', '', ('root.seal()',), True, None, False, True),
+    ('accessor_writable=False', 'accessor_writable=False', (), None, False,
+     True, True),
+    ('sealed=False', 'sealed=False', (), False, None, False, False),
+    ('sealed=True;seal(False)', 'sealed=True', ('root.seal(False)',), False,
+     None, False, False),
+    ('sym_seal()', '', ('root.sym_seal()',), True, None, False, False),
+    ('set_accessor_writable(False)', '',
+     ('root.set_accessor_writable(False)',), None, False, False, False),
+    ('accessor_writable=True,sealed=False',
+     'accessor_writable=True, sealed=False', (), False, True, True, False),
+    ('sealed=True,accessor_writable=False', 'sealed=True, '
+     'accessor_writable=False', (), True, False, True, False),
+    ('sealed=True,accessor_writable=False;seal(False)', 'sealed=True, '
+     'accessor_writable=False', ('root.seal(False)',), False, False, True,
+     False),
+    ('accessor_writable=False;set_accessor_writable(True)',
+     'accessor_writable=False', ('root.set_accessor_writable(True)',), None,
+     True, True, False),
+]
+# Creation inside a scope: the scope decides what is permitted while it is
+# active; the value that comes out carries the flags its keywords asked for.
+# (scope source, keywords, sealed, accessors, container kinds only, scope
+#  restricts [creation itself may be refused: then there is no value]).
+BND_IN_SCOPE = [
+    ('pg.as_sealed(False)', 'sealed=True', True, None, False, False),
+    ('pg.as_sealed(False)', '', None, None, False, False),
+    ('pg.as_sealed(None)', 'sealed=True', True, None, False, False),
+    ('pg.allow_writable_accessors(True)', 'accessor_writable=False', None,
+     False, True, False),
+    ('pg.allow_writable_accessors(True)', 'sealed=True', True, None, False,
+     False),
+    ('pg.as_sealed(True)', '', None, None, False, True),
+    ('pg.as_sealed(True)', 'sealed=True', True, None, False, True),
+    ('pg.as_sealed(True)', 'sealed=False', False, None, False, True),
+    ('pg.allow_writable_accessors(False)', '', None, None, False, True),
+    ('pg.allow_writable_accessors(False)', 'accessor_writable=True', None,
+     True, True, True),
+]
+BND_STACKS = [((False,), ()), ((True,), ()), ((None,), ()), ((), (True,)),
+              ((), (False,)), ((), (None,)), ((False,), (False,)),
+              ((True, False), ()), ((), (False, True))]
+# Classes whose documented class attributes seal every instance / switch the
+# accessors off unless the constructor keyword says otherwise.
+_BND_CLASS_SEALED = ('C08M(',)
+_BND_CLASS_ACC_OFF = ('C08Q(',)
+
+
+def _bnd_src(template, kw):
+  if kw:
+    return template.replace('@', kw)
+  return template.replace(', @', '').replace('@', '')
+
+
+def _bnd_probe_class(name, kind):
+  if kind == 'inpl':
+    return 'operator'
+  return _probe_class(name)
+
+
+def _bnd_run(rec, tree, cid_base, key, sealed, root_w, setup, root_only, full,
+             stack_cfgs, quick):
+  """Flag facts and operations on the registered tree `tree`."""
+  root = build(tree)
+  for ln in setup:
+    run_src(ln, root=root)
+  head = [pre_of(tree), f'root = {TREES[tree][0]}'] + list(setup)
+  if root_only:
+    nodes = [('', root)]
+    addrs = [(('', ''), kind_of(root))]
+  else:
+    nodes = sym_nodes(root)
+    addrs = addresses(root)
+  # Flag facts: sealing is deep, the accessor flag belongs to the value.
+  flags_ok = root.accessor_writable is root_w
+  for p, n in nodes:
+    checks = [(n, (p, ''))]
+    if isinstance(n, pg.Object):
+      checks.append((n.sym_init_args, (p, 'attrs')))
+    for m, a in checks:
+      flags_ok = flags_ok and m.is_sealed is sealed
+      rec.case(f'{cid_base}/is_sealed-of-every-node', key + (a,),
+               m.is_sealed is sealed,
+               f'{TREES[tree][0]}; {list(setup)}: is_sealed at {a} is '
+               f'{m.is_sealed!r}, want {sealed}',
+               '\n'.join(head + [f'm = {node_expr(a)}',
+                                 f'assert m.is_sealed is {sealed}']))
+  rec.case(f'{cid_base}/accessor_writable-of-the-value', key,
+           root.accessor_writable is root_w,
+           f'{TREES[tree][0]}; {list(setup)}: accessor_writable is '
+           f'{root.accessor_writable!r}, want {root_w}',
+           '\n'.join(head + [f'assert root.accessor_writable is {root_w}']))
+
+  def prepare(t):
+    for ln in setup:
+      run_src(ln, root=t)
+  for sstack, astack in stack_cfgs:
+    plain = not sstack and not astack
+    pool = Pool(tree, prepare if setup else None)
+    for addr, k in addrs:
+      where = ('' if not addr[0] and not addr[1] else
+               '@attr-dict' if addr[1] else '@member')
+      if full and plain:
+        ops = OPS[k]
+      elif plain or where == '' or not quick:
+        ops = _ops_named(k, PROBE_ACC[k] + PROBE_OTHER[k])
+      else:
+        ops = _ops_named(k, PROBE_NEIGHBOUR[k] + PROBE_ACC[k][-1:])
+      # The attribute dict of an object and the members are plain containers:
+      # their own accessors were never switched off.
+      w0 = root_w if where == '' else True
+      for name, kind, src in ops:
+        if (name == 'object.call/override-args' and
+            not effective(sstack, sealed)):
+          # A call with call-time overrides is not a mutator (it must leave
+          # the value alone, which is checked whenever the value is
+          # protected); whether the call itself works on an unprotected
+          # functor is not a matter of write protection.
+          continue
+        r = pool.get()
+        cid = f'{cid_base}{where}/{_bnd_probe_class(name, kind)}'
+        if not flags_ok:
+          # One defect, one id: the flags are already not what the keywords
+          # asked for; the operations show the consequence.
+          cid = f'{cid_base}/behaviour-with-wrong-flags'
+        pool.done(attempt(
+            rec, tree, r, list(setup), sstack, astack, addr, kind, cid, src,
+            effective(sstack, sealed), effective(astack, w0),
+            f'{key} as_sealed{sstack} allow_writable{astack} {name}'))
+
+
+def drv_ctor_boundary(tier, seed):
+  global _REF  # pylint: disable=global-statement
+  del seed
+  rec = Recorder(
+      'C08', 'protection requested at creation time (constructor keywords '
+      'sealed= / accessor_writable=, class attributes allow_symbolic_mutation '
+      '/ allow_symbolic_assignment, seal() / sym_seal() / '
+      'set_accessor_writable() right after creation, creation inside a scope) '
+      'on the boundary shapes of every container kind: every mutator at the '
+      'value, at its attribute dict and at its members is refused / permitted '
+      'as the keywords say; scopes override; unsealing restores',
+      scope='shapes: pg.Dict / pg.List with 0 members (9+10 spellings of the '
+      'arguments incl. None, {}, [], (), iterator, another empty pg.Dict / '
+      'pg.List, partial(), with onchange_callback / allow_partial / '
+      'root_path), empty typed, members from defaults only, 1 and 2 members, '
+      'members that are empty containers; pg.Object without fields, with '
+      'defaulted fields only, partial, sealed by its class, accessors off by '
+      'its class, functors without / with defaulted arguments (55 shapes) x '
+      '12 protection modes + 10 creations inside a scope x scope stacks; '
+      'quick: the full op tables for the primary spelling under the 4 main '
+      'modes, 10-12 probe ops (every accessor form, method, operator, rebind) '
+      'elsewhere, 2-9 scope stacks; thorough: everything')
+  quick = tier == 'quick'
+  saved_ref = _REF
+  _REF = {}
+  try:
+    for si, (cls, form, pre, templ, primary, root_only) in enumerate(
+        BND_SHAPES):
+      container = templ.startswith(('pg.Dict', 'pg.List'))
+      class_sealed = any(c in templ for c in _BND_CLASS_SEALED)
+      class_acc = not any(c in templ for c in _BND_CLASS_ACC_OFF)
+      configs = []
+      for (mlabel, kw, setup, s, w, cont_only, main) in BND_MODES:
+        if cont_only and not container:
+          continue  # objects take no accessor_writable keyword
+        if quick and not primary and not main:
+          continue
+        configs.append((mlabel, _bnd_src(templ, kw), setup, s, w, main, False))
+      for (scope, kw, s, w, cont_only, restricts) in BND_IN_SCOPE:
+        if cont_only and not container:
+          continue
+        if quick and not primary and (restricts or not kw):
+          continue
+        configs.append((
+            f'{kw or "default"} created inside a '
+            f'{"restricting" if restricts else "permissive"} scope',
+            f'c08_in({scope}, lambda: {_bnd_src(templ, kw)})', (), s, w,
+            False, restricts))
+      for ci, (mlabel, src, setup, s, w, main, restricts) in enumerate(
+          configs):
+        sealed = class_sealed if s is None else s
+        root_w = class_acc if w is None else w
+        # One tree name per shape: the reference runs (fully permissive
+        # scopes, where per-object flags are irrelevant by the statement) are
+        # shared by all protection modes of the shape; the first mode is the
+        # unprotected one.
+        tree = f'bnd~{si}'
+        cid_base = f'ctor[{cls}]{{{mlabel}}}'
+        key = (cls, form, mlabel, src if 'c08_in' in src else '')
+        TREES[tree] = (src, pre)
+        head = f'{PRE[pre].strip()}\nroot = {src}'
+        try:
+          _TREE_CODE[tree] = compile(src, '<bnd>', 'eval')
+          try:
+            build(tree)
+          except Exception as e:  # pylint: disable=broad-except
+            if restricts and isinstance(e, WPE):
+              # The restricting scope refused the creation itself: there is
+              # no value whose protection could be wrong.
+              rec.case(f'{cid_base}|creation-refused-by-scope', key, True, '',
+                       '', nontrivial=False)
+            else:
+              rec.case(f'{cid_base}/creation-fails', key, False,
+                       f'{src}: {type(e).__name__}: {e}', head)
+            continue
+          if quick and not (primary and main):
+            # one scope that overrides the protection that is in force
+            stack_cfgs = [((), ()), (
+                ((False,), ()) if sealed else ((), (True,)) if not root_w
+                else ((True,), ()) if (si + ci) % 2 else ((), (False,)))]
+          elif quick:
+            stack_cfgs = [((), ())] + BND_STACKS[:5] + BND_STACKS[6:7]
+          else:
+            stack_cfgs = [((), ())] + BND_STACKS
+          try:
+            _bnd_run(rec, tree, cid_base, key, sealed, root_w, setup,
+                     root_only, (primary and main) or not quick, stack_cfgs,
+                     quick)
+          except Exception as e:  # pylint: disable=broad-except
+            rec.case(f'{cid_base}|harness-exception', key, False,
+                     f'{type(e).__name__}: {e}: '
+                     + traceback.format_exc()[-300:], head)
+        finally:
+          TREES.pop(tree, None)
+          _TREE_CODE.pop(tree, None)
+      _REF.clear()
+  finally:
+    _REF = saved_ref
+  return rec.result()
+
+
 DRIVERS = [drv_sealed_flag, drv_sealed_scopes, drv_accessor,
            drv_seal_histories, drv_symbolic_kinds,
            drv_helpers_and_seal_apis, drv_protection_persists,
-           drv_composition]
+           drv_composition, drv_ctor_boundary]
 
 
 def replay(rec):
